@@ -289,4 +289,64 @@ def feedsEnd (g : GCase) : Nat → List Key → List Key
       !acc.contains m.key && (succsOf g m.key).any acc.contains).map (·.key)
     if more.isEmpty then acc else feedsEnd g n (acc ++ more)
 
+/-! ## Part 4: eager execution (Workflow) over the same graphs
+
+  `wait` hands back one completion at a time; its successors are submitted at once; the run
+  returns as soon as END is ready.  `order` is the completion priority (a schedule): at every
+  step the first started, not yet collected node of `order` is the one that completes. -/
+
+structure EState where
+  cells : List (Cell × String)
+  /-- collected (completion resolved) -/
+  done : List Key
+  /-- submitted to the task manager -/
+  started : List Key
+
+def eEndReady (g : GCase) (st : EState) : Bool := g.endPreds.all st.done.contains
+
+/-- nodes to submit: not started yet, every predecessor collected -/
+def eReady (g : GCase) (st : EState) : List Key :=
+  (g.nodes.filter fun n => !st.started.contains n.key && n.preds.all st.done.contains).map (·.key)
+
+def eInputs (st : EState) (n : GNode) : List (Key × String) :=
+  n.preds.filterMap fun p => (lookupLast (n.key, p) st.cells).map fun v => (p, v)
+
+/-- collect the completion of `k`, resolve it, submit what became ready -/
+def eCollect (g : GCase) (st : EState) (k : Key) : EState :=
+  let out := match g.nodes.find? (fun n => n.key == k) with
+    | some n => bodyOut k (eInputs st n)
+    | none => ""
+  let st1 : EState :=
+    { st with cells := st.cells ++ resolveWrites [mkTask g k out], done := st.done ++ [k] }
+  { st1 with started := st1.started ++ eReady g st1 }
+
+def eNext (order : List Key) (st : EState) : Option Key :=
+  order.find? fun k => st.started.contains k && !st.done.contains k
+
+def eLoop (g : GCase) (order : List Key) : Nat → EState → EState
+  | 0, st => st
+  | n + 1, st =>
+    if eEndReady g st then st else
+    match eNext order st with
+    | none => st
+    | some k => eLoop g order n (eCollect g st k)
+
+def eInit (g : GCase) : EState :=
+  let st0 : EState :=
+    { cells := resolveWrites [mkTask g startKey g.input], done := [startKey], started := [startKey] }
+  { st0 with started := st0.started ++ eReady g st0 }
+
+def eRun (g : GCase) (order : List Key) : EState := eLoop g order (g.nodes.length + 1) (eInit g)
+
+/-- started executions that were never collected when the run returned -/
+def eUncollected (st : EState) : List Key := st.started.filter fun k => !st.done.contains k
+
+def eResult (g : GCase) (st : EState) : List (Key × String) :=
+  g.endPreds.filterMap fun p => (lookupLast (endKey, p) st.cells).map fun v => (p, v)
+
+/-- `k` has a path to END -/
+inductive Reaches (g : GCase) : Key → Prop where
+  | direct {k : Key} : k ∈ g.endPreds → Reaches g k
+  | via {k : Key} {n : GNode} : n ∈ g.nodes → k ∈ n.preds → Reaches g n.key → Reaches g k
+
 end EinoV.C03
